@@ -1544,3 +1544,157 @@ Proof.
   destruct (Nat.ltb_spec sig (length m)); [|lia]. destruct (Nat.leb_spec 1 sig); [|lia].
   reflexivity.
 Qed.
+
+(* ------------------------------------------------------------------ *)
+(* K. UV_PROCESS_SETUID / UV_PROCESS_SETGID                              *)
+(* ------------------------------------------------------------------ *)
+Definition all3 (id : nat) : creds := mkC id id id.
+
+Lemma child_creds_priv uc gc sg su :
+  c_e uc = 0 ->
+  child_creds uc gc sg su =
+    Some (match su with Some u => all3 u | None => uc end,
+          match sg with Some g => all3 g | None => gc end).
+Proof.
+  intros H. unfold child_creds, setid. rewrite H. simpl.
+  destruct sg, su; reflexivity.
+Qed.
+
+Lemma r_creds_spec sp wo :
+  r_creds (fst (uv_spawn sp wo)) =
+    match r_child (fst (uv_spawn sp wo)) with
+    | Some (CExec _) =>
+        match child_creds (s_uid sp) (s_gid sp) (s_setgid sp) (s_setuid sp) with
+        | Some (u, g) => Some (exec_creds u, exec_creds g)
+        | None => None
+        end
+    | _ => None
+    end.
+Proof.
+  unfold uv_spawn.
+  destruct (init_stdio (s_stdio sp) (s_tbl sp) (s_fresh sp) 0 (s_sp_fail sp)) as [[[t1 ps] f1] err].
+  destruct err; [reflexivity|].
+  destruct (spawn_child t1 (pad3 3 (map snd ps)) f1 (s_pipe_fail sp) (s_fork_fail sp) (eff_exec_err sp) wo)
+    as [[[[[eno t2] c] wrote] reaped] wo2].
+  destruct (open_streams (s_stdio sp) ps 0 t2) as [t3 streams].
+  reflexivity.
+Qed.
+
+(* a privileged caller (effective uid 0): the child is exec'ed with real,
+   effective and saved id all equal to the requested one, for uid and gid *)
+Theorem uid_gid_take_effect sp wo :
+  no_bad (s_stdio sp) -> inherited_open sp ->
+  s_sp_fail sp = None -> s_pipe_fail sp = false -> s_fork_fail sp = false ->
+  s_exec_err sp = None -> c_e (s_uid sp) = 0 ->
+  let r := fst (uv_spawn sp wo) in
+  r_ret r = 0%Z /\ r_active r = true /\
+  r_creds r = Some (match s_setuid sp with Some u => all3 u | None => exec_creds (s_uid sp) end,
+                    match s_setgid sp with Some g => all3 g | None => exec_creds (s_gid sp) end).
+Proof.
+  intros Hb Ho Hsp Hpf Hff Hee Hp. cbv zeta.
+  assert (He : eff_exec_err sp = None).
+  { unfold eff_exec_err. rewrite child_creds_priv by auto. exact Hee. }
+  destruct (spawn_fds sp wo Hb Ho Hsp Hpf Hff He) as (R1 & R2 & t' & R3 & _).
+  split; [exact R1|]. split; [exact R2|].
+  rewrite r_creds_spec, R3, child_creds_priv by auto.
+  destruct (s_setuid sp), (s_setgid sp); reflexivity.
+Qed.
+
+(* whoever the caller is: a child that reaches exec has the requested ids as
+   its effective ids; and a request the kernel refuses is a failed spawn *)
+Theorem uid_gid_effective sp wo uc gc :
+  r_creds (fst (uv_spawn sp wo)) = Some (uc, gc) ->
+  (forall u, s_setuid sp = Some u -> c_e uc = u) /\
+  (forall g, s_setgid sp = Some g -> c_e gc = g) /\
+  (s_setuid sp = None -> uc = exec_creds (s_uid sp)) /\
+  (s_setgid sp = None -> gc = exec_creds (s_gid sp)).
+Proof.
+  rewrite r_creds_spec. destruct (r_child (fst (uv_spawn sp wo))) as [[t|t e z]|]; try discriminate.
+  unfold child_creds, setid.
+  destruct (s_setgid sp) as [g|], (s_setuid sp) as [u|];
+    destruct (c_e (s_uid sp) =? 0)%nat;
+    repeat match goal with
+           | |- context [if ?b then _ else _] => destruct b
+           end; intros H; inversion H; subst; simpl;
+    repeat split; intros; try congruence.
+Qed.
+
+Theorem uid_gid_refused sp wo :
+  no_bad (s_stdio sp) -> inherited_open sp ->
+  s_sp_fail sp = None -> s_pipe_fail sp = false -> s_fork_fail sp = false ->
+  child_creds (s_uid sp) (s_gid sp) (s_setgid sp) (s_setuid sp) = None ->
+  let r := fst (uv_spawn sp wo) in
+  r_ret r = (- EPERM)%Z /\ r_active r = false /\ r_creds r = None.
+Proof.
+  intros Hb Ho Hsp Hpf Hff Hc. cbv zeta.
+  assert (He : eff_exec_err sp = Some EPERM) by (unfold eff_exec_err; rewrite Hc; reflexivity).
+  destruct (spawn_exec_failure sp wo EPERM Hb Ho Hsp Hpf Hff He) as (R1 & R2 & _).
+  split; [exact R1|]. split; [rewrite R2; reflexivity|].
+  rewrite r_creds_spec, Hc. destruct (r_child (fst (uv_spawn sp wo))) as [[?|? ? ?]|]; reflexivity.
+Qed.
+
+(* ------------------------------------------------------------------ *)
+(* L. assert(fd > STDERR_FILENO) in uv__close                            *)
+(* ------------------------------------------------------------------ *)
+Definition stdio_open (t : tbl) : Prop := get t 0 <> None /\ get t 1 <> None /\ get t 2 <> None.
+
+Lemma free_above_stdio t d : stdio_open t -> get t d = None -> 3 <= d.
+Proof.
+  intros (H0 & H1 & H2) N.
+  destruct d as [|[|[|d]]]; try congruence. lia.
+Qed.
+
+Lemma streams_trip_false : forall cs ps,
+  (forall i a b, nth_error cs i = Some SPipe -> nth_error ps i = Some (Some a, Some b) -> 3 <= b) ->
+  streams_trip cs ps = false.
+Proof.
+  induction cs as [|c r IH]; intros ps H; [reflexivity|].
+  destruct ps as [|[a b] pr]; [reflexivity|].
+  assert (Hr : streams_trip r pr = false).
+  { apply IH. intros i a' b' Hc Hp. apply (H (S i) a' b'); auto. }
+  cbn [streams_trip]. destruct c; auto. destruct a as [pa|]; auto. destruct b as [n|]; auto.
+  rewrite Hr, orb_false_r. apply Nat.leb_gt.
+  specialize (H 0 pa n eq_refl eq_refl). lia.
+Qed.
+
+(* with 0, 1 and 2 open in the parent no uv__close() of uv_spawn sees a
+   descriptor <= 2 *)
+Theorem spawn_no_trip sp wo :
+  no_bad (s_stdio sp) -> s_sp_fail sp = None -> stdio_open (s_tbl sp) ->
+  r_trip (fst (uv_spawn sp wo)) = false.
+Proof.
+  intros Hb Hsp Hs. unfold uv_spawn. rewrite Hsp.
+  destruct (init_stdio_spec (s_stdio sp) (s_tbl sp) (s_fresh sp) 0 Hb) as (t1 & ps & E & L & X & HS).
+  rewrite E.
+  destruct (spawn_child t1 (pad3 3 (map snd ps)) (s_fresh sp + 2 * npipes (s_stdio sp))
+              (s_pipe_fail sp) (s_fork_fail sp) (eff_exec_err sp) wo)
+    as [[[[[eno t2] c] wrote] reaped] wo2].
+  destruct (open_streams (s_stdio sp) ps 0 t2) as [t3 streams].
+  cbn [fst r_trip].
+  rewrite streams_trip_false, orb_false_r.
+  - unfold error_wfd.
+    destruct (alloc t1 0 (s_fresh sp + 2 * npipes (s_stdio sp)) true) as [ta rfd] eqn:Aa.
+    cbn [fst].
+    destruct (alloc ta 0 (S (s_fresh sp + 2 * npipes (s_stdio sp))) true) as [tb wfd] eqn:Ab.
+    cbn [snd].
+    pose proof (ext_alloc 0 _ _ _ _ Aa) as Xa.
+    apply alloc_spec in Ab as (_ & Nb & _).
+    assert (3 <= wfd).
+    { apply (free_above_stdio (s_tbl sp)); auto.
+      eapply ext_none; [exact X|]. eapply ext_none; [exact Xa|exact Nb]. }
+    destruct (Nat.leb_spec wfd 2); [lia|]. apply andb_false_r.
+  - intros i a b Hc Hp. pose proof (HS i) as Si. rewrite Hc in Si.
+    destruct Si as (a2 & b2 & T1 & _ & _ & _ & T5). rewrite Hp in T1. inversion T1; subst.
+    apply (free_above_stdio (s_tbl sp)); auto.
+Qed.
+
+(* without that: 0 and 1 closed, nothing to redirect - the error pipe is 0/1
+   and uv__close(signal_pipe[1]) is uv__close(1) *)
+Definition closed_stdio_spec : spec :=
+  mkSpec [None; None; Some (mkE 3 false)] [] true 7 10 None false false None []
+         (mkC 0 0 0) (mkC 0 0 0) None None.
+
+Lemma closed_stdio_trips :
+  r_trip (fst (uv_spawn closed_stdio_spec [])) = true /\
+  r_ret (fst (uv_spawn closed_stdio_spec [])) = 0%Z.
+Proof. vm_compute. split; reflexivity. Qed.
